@@ -14,6 +14,7 @@
  *        "the emitted byte at position g_wk is g_wv" for the symbolic position g_wk, and -- the view of an independent
  *        decoder -- the header fields of a Windows bitmap decoded from the first 14+40(+16) emitted bytes at the offsets
  *        the BMP format defines (little-endian numerals), when C06_DECODE_BMP_HEADER is defined.
+ *  C06_snprintf / C06_strlen    the header text of the PPM saver: some NUL-terminated string shorter than the buffer (content not modelled).
  *  C06_MAP_AT(table, key)     std::unordered_map::at on a map built from a braced list of 4 pairs (the BI_BITFIELDS mask table).
  *  C06_malloc_unique(size)     phosg::malloc_unique (src/Strings.cc) = malloc, ASSUMED to succeed; the unique_ptr deleter is dropped (no leak reasoning).
  */
@@ -128,6 +129,27 @@ static inline void C06_writer(const void* data, size_t size) {
   }
   g_wpos += size;
   g_wcalls++;
+}
+
+/* ---- text header of the PPM / PAM saver ---- */
+size_t g_hdr_len; /* length of the header text produced by the last snprintf */
+size_t nondet_size_t(void);
+/* snprintf(buf, n, fmt, ...) with n > 0: stores a NUL-terminated string of fewer than n characters (ISO C 7.21.6.5); WHICH
+ * characters is not modelled (the PPM header text is not decided by this check) */
+#define C06_snprintf(buf, n, ...) C06_snprintf_any(buf, n) /* format and arguments are not evaluated by the model */
+static inline int C06_snprintf_any(char* buf, size_t n) {
+  __CPROVER_assert(n > 0 && __CPROVER_w_ok(buf, n), "snprintf target holds n bytes");
+  __CPROVER_havoc_slice(buf, n);
+  size_t len = nondet_size_t();
+  __CPROVER_assume(len < n);
+  buf[len] = 0;
+  g_hdr_len = len;
+  return (int)len;
+}
+/* strlen of the string the last C06_snprintf produced */
+static inline size_t C06_strlen(const char* s) {
+  __CPROVER_assert(__CPROVER_r_ok(s, g_hdr_len + 1) && s[g_hdr_len] == 0, "strlen argument is the header text");
+  return g_hdr_len;
 }
 
 #endif
